@@ -33,6 +33,7 @@ def run(ctx):
     Q.rule_qsl_mappers(ctx, "R9m")
     from .c01 import component_flow
     component_flow(ctx, "R9c")
+    hostless_table(ctx, "R10")
     import json as _json
     from .c04 import SPEC as _SPEC4
     _spec = _json.load(open(_SPEC4))
@@ -41,6 +42,34 @@ def run(ctx):
         kw = NM.helper_kwargs(hc)
         ctx.ob("R2", "normalize_url/host/helper-forwards-options", kw.get("normalize_amp") == ("param", "normalize_amp") and kw.get("strip_irrelevant_subdomains") == ("param", "strip_irrelevant_subdomains"),
                "normalize_url does not hand normalize_amp / strip_irrelevant_subdomains to the host helper as given: switching the option off no longer preserves the host", n.site, witness="normalize_url('http://www.a.com', strip_irrelevant_subdomains=False)")
+
+
+# ----------------------------------------------------------------------
+HOSTLESS_CELLS = [
+    # (url, options, result): urls without a host or without a scheme keep every character the options do not own
+    ("/x/y", {}, "/x/y"), ("?a=1", {}, "?a=1"), ("#f", {"strip_fragment": False}, "#f"), ("", {}, ""), ("http:///path", {}, "/path"), ("http:///path", {"strip_protocol": False}, "http:///path"),
+    ("localhost//a", {}, "localhost/a"), ("a.com//x", {}, "a.com/x"), ("host/x", {"strip_protocol": False}, "host/x"), ("host/x", {"strip_protocol": False, "platform_aware": True}, "host/x"),
+    ("//host/x", {}, "host/x"), ("//host/x", {"strip_protocol": False}, "//host/x"), ("//host/x", {"strip_protocol": False, "platform_aware": True}, "//host/x"), ("//host:443/x", {"strip_protocol": False, "platform_aware": True}, "//host/x"),
+    ("//host:80/x", {"strip_protocol": False, "platform_aware": True}, "//host:80/x"), ("http://host/x", {"strip_protocol": False, "platform_aware": True}, "http://host/x"), ("HTTP://host/x", {"strip_protocol": False}, "http://host/x"),
+]
+
+
+def hostless_table(ctx, rule):
+    ctx.rule(rule, "model table (urls without host or scheme): normalize_url, interpreted on one url per class {path only, query only, fragment only, empty, scheme with empty host, scheme-less host with a doubled slash, scheme-less, protocol-relative} x {default, strip_protocol=False, strip_protocol=False + platform_aware=True}, gives the url minus what the options own: no leading character is cut that is not the '//' of an emptied scheme, and no scheme is written that the url did not have")
+    from . import tables as TB
+    mod = ctx.repo.mod("normalize_url")
+    site = mod.site(mod.func("normalize_url").node)
+    n = 0
+    for url, opts, want in HOSTLESS_CELLS:
+        try:
+            got = TB.call(ctx.repo, "normalize_url", "normalize_url", url, **opts)
+        except Unknown as e:
+            ctx.undecided(rule, "normalize_url(%r, %r): %s" % (url, opts, e))
+            continue
+        n += 1
+        ctx.ob(rule, "hostless/%r/%s" % (url, ",".join(sorted(opts))), got == want, "normalize_url(%r%s) gives %r, the url minus what the options own is %r" % (url, "".join(", %s=%r" % kv for kv in sorted(opts.items())), got, want), site, witness=url,
+               sample="%r -> %r" % (url, got) if url in ("http:///path", "localhost//a") else None)
+    ctx.require_instances(rule, n, len(HOSTLESS_CELLS) - 1, "host-less / scheme-less cells")
 
 
 # ----------------------------------------------------------------------
